@@ -1,7 +1,7 @@
 SPECIFICATION Spec
 CONSTANTS
-  Prog <- P_S2RR
-  Procs = {1,2,3,4}
+  Prog <- P_QUICK
+  Procs = {1,2,3}
   Fixed = FALSE
   EnableFirst = TRUE
   Mon = TRUE
